@@ -64,7 +64,11 @@ Fixpoint rwfb (e : E) : bool :=
   | Neg a | ConjE a | AdjW a | TranspW a => rwfb a
   | Pow a _ => rwfb a && Nat.eqb (fst (shape GS a)) (snd (shape GS a))
   | RealImag fw aj _ a => fw && aj && (wfb a || rwfb a)
-  | _ => false
+  | Cols cs a => rwfb a && nodupb cs && forallb (fun c => Nat.ltb c (snd (shape GS a))) cs
+  | VStack es => negb (Nat.eqb (length es) 0) && forallb rwfb es && forallb (fun e' => Nat.eqb (snd (shape GS e')) (snd (shape GS (VStack es)))) es
+  | HStack es => negb (Nat.eqb (length es) 0) && forallb rwfb es && forallb (fun e' => Nat.eqb (fst (shape GS e')) (fst (shape GS (HStack es)))) es
+  | BlockDiag es => negb (Nat.eqb (length es) 0) && forallb rwfb es
+  | Kron a b => rwfb a && rwfb b
   end.
 
 (* view: 0 = root, 1 = root.H, 2 = root.T, 3 = root.conj() *)
